@@ -35,19 +35,19 @@ Definition parse_dict (b : bytes) : res dict :=
       do i <- of_opt (read_le 4 r0) Edict 400;
       let '(id, r1) := i in
       do h <- read_huf_table 12 r1;
-      let r2 := skipn (N.to_nat (snd h)) r1 in
+      let r2 := skipN r1 (snd h) in
       do o <- read_ncount MaxOff OffFSELog r2;
       let '(olog, ocnt, oused) := o in
       do tof <- build_dtable olog ocnt;
-      let r3 := skipn (N.to_nat oused) r2 in
+      let r3 := skipN r2 oused in
       do m' <- read_ncount MaxML MLFSELog r3;
       let '(mlog, mcnt, mused) := m' in
       do tml <- build_dtable mlog mcnt;
-      let r4 := skipn (N.to_nat mused) r3 in
+      let r4 := skipN r3 mused in
       do l <- read_ncount MaxLL LLFSELog r4;
       let '(llog, lcnt, lused) := l in
       do tll <- build_dtable llog lcnt;
-      let r5 := skipn (N.to_nat lused) r4 in
+      let r5 := skipN r4 lused in
       do p1 <- of_opt (read_le 4 r5) Edict 401;
       do p2 <- of_opt (read_le 4 (snd p1)) Edict 402;
       do p3 <- of_opt (read_le 4 (snd p2)) Edict 403;
@@ -104,11 +104,11 @@ Definition parse_fheader (magicless : bool) (src : bytes) : res (fheader * bytes
   end.
 
 (* ---------- blocks of one frame ---------- *)
-Fixpoint blocks_loop (fuel : nat) (strict : bool) (window blockMax : N) (e : entropy) (x : xstate)
+Fixpoint blocks_loop (fuel : list N) (strict : bool) (window blockMax : N) (e : entropy) (x : xstate)
          (src : bytes) (acc : list btrace) : res (xstate * bytes * list btrace) :=
   match fuel with
-  | O => Err Efuel 420
-  | S f =>
+  | [] => Err Efuel 420
+  | _ :: f =>
     do h <- of_opt (read_le 3 src) Etrunc 421;
     let '(hv, r0) := h in
     let last := N.testbit hv 0 in
@@ -117,24 +117,25 @@ Fixpoint blocks_loop (fuel : nat) (strict : bool) (window blockMax : N) (e : ent
     do step <-
       (if btype =? 0 then
          check (bsize <=? blockMax) else Esafety @ 422;
-         do sp <- of_opt (splitn (N.to_nat bsize) r0) Etrunc 423;
+         do sp <- of_opt (splitN bsize r0) Etrunc 423;
          Ok (e, push_fwd x (fst sp) bsize,
-             snd sp, {| bt_type := 0; bt_last := last; bt_csize := bsize; bt_rsize := bsize; bt_litmode := 0; bt_litsize := 0; bt_seqmodes := 0; bt_seqs := [] |})
+             snd sp, {| bt_type := 0; bt_last := last; bt_csize := bsize; bt_rsize := bsize; bt_litmode := 0; bt_litsize := 0; bt_seqmodes := 0; bt_seqs := []; bt_nbseq_bytes := 0; bt_lasttable := 0 |})
        else if btype =? 1 then
          check (bsize <=? blockMax) else Esafety @ 424;
          match r0 with
          | [] => Err Etrunc 425
          | v :: t =>
-           Ok (e, push_rev x (repeatN v (N.to_nat bsize) []) bsize,
-               t, {| bt_type := 1; bt_last := last; bt_csize := bsize; bt_rsize := bsize; bt_litmode := 0; bt_litsize := 0; bt_seqmodes := 0; bt_seqs := [] |})
+           Ok (e, push_rev x (repeatN v bsize []) bsize,
+               t, {| bt_type := 1; bt_last := last; bt_csize := bsize; bt_rsize := bsize; bt_litmode := 0; bt_litsize := 0; bt_seqmodes := 0; bt_seqs := []; bt_nbseq_bytes := 0; bt_lasttable := 0 |})
          end
        else if btype =? 2 then
          check (bsize <=? blockMax) else Esafety @ 426;
-         do sp <- of_opt (splitn (N.to_nat bsize) r0) Etrunc 427;
+         do sp <- of_opt (splitN bsize r0) Etrunc 427;
          do r <- decode_cblock strict window blockMax e x (fst sp);
          let '(e', x', bt) := r in
          Ok (e', x', snd sp, {| bt_type := 2; bt_last := last; bt_csize := bsize; bt_rsize := bt_rsize bt; bt_litmode := bt_litmode bt;
-                               bt_litsize := bt_litsize bt; bt_seqmodes := bt_seqmodes bt; bt_seqs := bt_seqs bt |})
+                               bt_litsize := bt_litsize bt; bt_seqmodes := bt_seqmodes bt; bt_seqs := bt_seqs bt;
+                               bt_nbseq_bytes := bt_nbseq_bytes bt; bt_lasttable := bt_lasttable bt |})
        else Err Eformat 428);
     let '(e', x', rest, bt) := step in
     if last then Ok (x', rest, rev' (bt :: acc))
@@ -144,7 +145,7 @@ Fixpoint blocks_loop (fuel : nat) (strict : bool) (window blockMax : N) (e : ent
 Record ftrace := { ft_header : fheader; ft_blocks : list btrace; ft_csize : N; ft_checksum : option N }.
 
 (* newest-first history of one frame -> its content in order *)
-Definition frame_output (x : xstate) : bytes := rev' (firstn (N.to_nat (x_pos x)) (x_hist x)).
+Definition frame_output (x : xstate) : bytes := takeN_rev (x_hist x) (x_pos x) [].
 
 (* decode one Zstandard frame (not skippable) ; returns content, trace, remaining input *)
 Definition decode_frame (cfg : config) (d : option dict) (src : bytes) : res (bytes * ftrace * bytes) :=
@@ -159,7 +160,7 @@ Definition decode_frame (cfg : config) (d : option dict) (src : bytes) : res (by
   let '(e0, dcontent) := dd in
   let blockMax := N.min (N.min (fh_window fh) BLOCK_MAX) (c_block_max cfg) in
   let x0 := {| x_hist := rev' dcontent; x_marks := []; x_avail := lenN dcontent; x_pos := 0; x_blk := 0 |} in
-  do b <- blocks_loop (S (length r0)) (c_strict_window cfg) (fh_window fh) blockMax e0 x0 r0 [];
+  do b <- blocks_loop (0 :: r0) (c_strict_window cfg) (fh_window fh) blockMax e0 x0 r0 [];
   let '(x, r1, bts) := b in
   let out := frame_output x in
   check (match fh_fcs fh with Some v => v =? x_pos x | None => true end) else Eintegrity @ 433;
@@ -174,11 +175,11 @@ Definition decode_frame (cfg : config) (d : option dict) (src : bytes) : res (by
 (* ---------- multi-frame (ZSTD_decompress semantics) ---------- *)
 Inductive fitem := FZstd (t : ftrace) (n : N) | FSkip (size : N).
 
-Fixpoint frames_loop (fuel : nat) (cfg : config) (d : option dict) (src : bytes)
+Fixpoint frames_loop (fuel : list N) (cfg : config) (d : option dict) (src : bytes)
          (out_rev : list bytes) (acc : list fitem) : res (list bytes * list fitem) :=
   match fuel with
-  | O => Err Efuel 440
-  | S f =>
+  | [] => Err Efuel 440
+  | _ :: f =>
     match src with
     | [] => Ok (rev' out_rev, rev' acc)
     | _ =>
@@ -190,7 +191,7 @@ Fixpoint frames_loop (fuel : nat) (cfg : config) (d : option dict) (src : bytes)
       match skip with
       | Some r =>
         do sz <- of_opt (read_le 4 r) Etrunc 441;
-        do sp <- of_opt (splitn (N.to_nat (fst sz)) (snd sz)) Etrunc 442;
+        do sp <- of_opt (splitN (fst sz) (snd sz)) Etrunc 442;
         frames_loop f cfg d (snd sp) out_rev (FSkip (fst sz) :: acc)
       | None =>
         do r <- decode_frame cfg d src;
@@ -201,5 +202,5 @@ Fixpoint frames_loop (fuel : nat) (cfg : config) (d : option dict) (src : bytes)
   end.
 
 Definition R (cfg : config) (d : option dict) (src : bytes) : res (bytes * list fitem) :=
-  do r <- frames_loop (S (length src)) cfg d src [] [];
-  Ok (concat (fst r), snd r).
+  do r <- frames_loop (0 :: src) cfg d src [] [];
+  Ok (rev' (fold_left (fun acc f => rev_append f acc) (fst r) []), snd r).
